@@ -26,7 +26,7 @@ def main():
     wt = "/tmp/seedconf/" + sid
     shutil.rmtree(wt, ignore_errors=True)
     os.makedirs("/tmp/seedconf", exist_ok=True)
-    env = dict(os.environ, CARGO_NET_OFFLINE="true", CARGO_TARGET_DIR="/tmp/seedconf/target")
+    env = dict(os.environ, CARGO_NET_OFFLINE="true", CARGO_TARGET_DIR=os.environ.get("SEEDCONF_TARGET", "/tmp/seedconf/target"))
     pkg = {"detector": "alpha_g_detector", "physics": "alpha_g_physics", "analysis": "alpha-g-analysis"}[crate]
     ran = []
     try:
